@@ -17,6 +17,8 @@ import (
 	"fmt"
 	"io"
 	"os"
+	"runtime"
+	"strconv"
 	"strings"
 	"sync"
 	"sync/atomic"
@@ -56,15 +58,28 @@ type TargetSpec struct {
 	Open      []bool   `json:"open,omitempty"`
 	Send      []bool   `json:"send,omitempty"`
 	Streams   []Stream `json:"streams,omitempty"`
+	// Gate: the N-th callback of kind Cb (Connect Update Sync Reset CE ME) for
+	// this name blocks until the harness releases it (op "overlap").
+	Gate *Gate `json:"gate,omitempty"`
+}
+
+// Gate names one callback occurrence.
+type Gate struct {
+	Cb string `json:"cb"`
+	N  int    `json:"n"`
 }
 
 // Op is one control action on target T, issued once that target's log holds
 // At goroutine letters (or the target sits in a stream that can only be ended
-// from outside).  K: reconnect | remove | add | readd (remove then add).
+// from outside).  K: reconnect | remove | add | readd (remove then add) |
+// overlap: once the target's gate has closed, Remove is issued, and while it
+// is in progress (observed waiting inside Manager.Remove) a SECOND goroutine
+// calls X (add | remove | reconnect) for the same name; then the gate opens.
 type Op struct {
 	T  int    `json:"t"`
 	At int    `json:"at"`
 	K  string `json:"k"`
+	X  string `json:"x,omitempty"`
 }
 
 // Case is what is written to cases_k.json and read back for replay.
@@ -111,6 +126,11 @@ type tgt struct {
 	iSend     int
 	iStream   int
 	nUpd      int64
+
+	gateCount  int           // occurrences of the gated callback kind so far
+	gateClosed bool          // the gated callback is being held
+	gateUsed   bool          // the gate closed once already
+	gateCh     chan struct{} // closed to release
 }
 
 func (t *tgt) ev(s string, gor bool) {
@@ -329,10 +349,74 @@ func cb(name, what string) {
 		atomic.AddInt64(&strays, 1)
 		return
 	}
+	if g := t.spec.Gate; g != nil {
+		kind := strings.TrimRight(what, "0123456789")
+		hold := false
+		t.mu.Lock()
+		if kind == g.Cb && !t.gateUsed {
+			t.gateCount++
+			if t.gateCount == g.N {
+				t.gateUsed, t.gateClosed, hold = true, true, true
+			}
+		}
+		t.mu.Unlock()
+		if hold {
+			t.ev("gateC", false)
+			<-t.gateCh
+		}
+	}
 	if t.cbDelay > 0 {
 		time.Sleep(t.cbDelay)
 	}
 	t.ev(what, true)
+}
+
+// goid returns the id of the calling goroutine.
+func goid() int64 {
+	var b [64]byte
+	n := runtime.Stack(b[:], false)
+	f := strings.Fields(string(b[:n]))
+	if len(f) < 2 {
+		return -1
+	}
+	id, _ := strconv.ParseInt(f[1], 10, 64)
+	return id
+}
+
+// observeState polls the goroutine dump until goroutine *id is parked with a
+// wait reason containing reason and (if fn != "") has fn on its stack; gives
+// up when done is closed or after d.  Only ever used to decide whether to go
+// on with an overlap experiment: not seeing the state skips the experiment.
+func observeState(id *int64, reason, fn string, done <-chan struct{}, d time.Duration) bool {
+	deadline := time.Now().Add(d)
+	buf := make([]byte, 4<<20)
+	for time.Now().Before(deadline) {
+		select {
+		case <-done:
+			return false
+		default:
+		}
+		if g := atomic.LoadInt64(id); g > 0 {
+			n := runtime.Stack(buf, true)
+			dump := string(buf[:n])
+			hdr := fmt.Sprintf("goroutine %d [", g)
+			if i := strings.Index(dump, hdr); i >= 0 {
+				blk := dump[i:]
+				if j := strings.Index(blk, "\n\n"); j >= 0 {
+					blk = blk[:j]
+				}
+				line := blk
+				if j := strings.Index(blk, "\n"); j >= 0 {
+					line = blk[:j]
+				}
+				if strings.Contains(line, reason) && (fn == "" || strings.Contains(blk, fn)) {
+					return true
+				}
+			}
+		}
+		time.Sleep(300 * time.Microsecond)
+	}
+	return false
 }
 
 // ---------------------------------------------------------------------------
@@ -371,13 +455,24 @@ func (t *tgt) waitFor(d time.Duration, pred func() bool) bool {
 func gapsOf(log []string, at []time.Time) []int64 {
 	gaps := []int64{}
 	var last time.Time
-	have := false
+	have, xadd := false, false
 	for i, e := range log {
 		switch e {
-		case "addC", "rmR+":
+		case "addC", "rmR+", "xadd+", "xadd-":
 			have = false
+			xadd = false
 			continue
-		case "add+", "add-", "rcC", "rcR+", "rcR-", "rmC", "rmR-", "hang", "stall":
+		case "xaddC":
+			// a new monitor may start (at once, no backoff) any time from here
+			// until the call returns
+			have = false
+			xadd = true
+			continue
+		case "add+", "add-", "rcC", "rcR+", "rcR-", "rmC", "rmR-", "hang", "stall",
+			"gateC", "gateO", "xrmC", "xrmR+", "xrmR-", "xrcC", "xrcR+", "xrcR-":
+			continue
+		}
+		if xadd {
 			continue
 		}
 		if have {
@@ -413,6 +508,7 @@ func runCase(c Case, window time.Duration) ([][]string, [][]int64) {
 		t.timeout = mayExpire(c, sp)
 		t.cbDelay = time.Duration(c.CbDelayUs) * time.Microsecond
 		t.cond = sync.NewCond(&t.mu)
+		t.gateCh = make(chan struct{})
 		ts[i] = t
 		registry.Store(t.name, t)
 	}
@@ -496,25 +592,113 @@ func control(m *manager.Manager, t *tgt, ops []Op) {
 			dead = true
 		}
 	}
+	openGate := func() {
+		t.mu.Lock()
+		held := t.gateClosed
+		t.gateClosed = false
+		t.gateUsed = true // disarm: no callback is held from now on
+		t.mu.Unlock()
+		if held {
+			t.ev("gateO", false)
+			close(t.gateCh)
+		}
+	}
+	gateHeld := func() bool {
+		t.mu.Lock()
+		defer t.mu.Unlock()
+		return t.gateClosed
+	}
+	// overlap: Remove by this goroutine; while it is in progress a second
+	// goroutine calls x for the same name; then the held callback is released.
+	overlap := func(x string) {
+		t.ev("rmC", false)
+		var aID, bID int64
+		aDone, bDone := make(chan struct{}), make(chan struct{})
+		var aErr, bErr error
+		go func() {
+			atomic.StoreInt64(&aID, goid())
+			aErr = m.Remove(t.name)
+			t.ev("rmR"+pm(aErr == nil), false)
+			close(aDone)
+		}()
+		started := false
+		if observeState(&aID, "chan receive", "manager.(*Manager).Remove", aDone, 400*time.Millisecond) {
+			started = true
+			tag := map[string]string{"add": "xadd", "remove": "xrm", "reconnect": "xrc"}[x]
+			t.ev(tag+"C", false)
+			go func() {
+				atomic.StoreInt64(&bID, goid())
+				switch x {
+				case "add":
+					bErr = m.Add(t.name, protoTarget(t), sr)
+					t.ev("xadd"+pm(bErr == nil), false)
+				case "remove":
+					bErr = m.Remove(t.name)
+					t.ev("xrmR"+pm(bErr == nil), false)
+				default:
+					bErr = m.Reconnect(t.name)
+					t.ev("xrcR"+pm(bErr == nil), false)
+				}
+				close(bDone)
+			}()
+			// give the call time to reach the manager lock (or to return)
+			observeState(&bID, "sync.Mutex.Lock", "", bDone, 100*time.Millisecond)
+		}
+		openGate()
+		select {
+		case <-aDone:
+			if aErr == nil {
+				managed = false
+			}
+		case <-time.After(hangAfter):
+			t.ev("hang", false)
+			dead = true
+			return
+		}
+		if started {
+			select {
+			case <-bDone:
+				if bErr == nil && x == "add" {
+					managed = true
+				}
+				if bErr == nil && x == "remove" {
+					managed = false
+				}
+			case <-time.After(hangAfter):
+				t.ev("hang", false)
+				dead = true
+			}
+		}
+	}
 	add()
 	for _, o := range ops {
 		if dead {
 			break
 		}
 		if managed {
-			ok := t.waitFor(stallAfter, func() bool { return t.gor >= o.At || t.blocked || t.exhausted })
+			ok := t.waitFor(stallAfter, func() bool {
+				if o.K == "overlap" {
+					return t.gateClosed || t.blocked || t.exhausted
+				}
+				return t.gor >= o.At || t.blocked || t.exhausted || t.gateClosed
+			})
 			if !ok {
 				t.ev("stall", false)
 				stalled = true
 				break
 			}
 		}
+		if o.K == "overlap" && managed && gateHeld() {
+			overlap(o.X)
+			continue
+		}
+		openGate() // never leave a callback held across another action
 		switch o.K {
 		case "reconnect":
 			t.ev("rcC", false)
 			err := m.Reconnect(t.name)
 			t.ev("rcR"+pm(err == nil), false)
-		case "remove":
+		case "remove", "overlap":
 			remove()
 		case "add":
 			add()
@@ -525,12 +709,15 @@ func control(m *manager.Manager, t *tgt, ops []Op) {
 			}
 		}
 	}
+	openGate()
 	if managed && !dead {
-		if !stalled && !t.waitFor(stallAfter, func() bool { return t.blocked || t.exhausted }) {
+		if !stalled && !t.waitFor(stallAfter, func() bool { return t.blocked || t.exhausted || t.gateClosed }) {
 			t.ev("stall", false)
 		}
+		openGate()
 		remove()
 	}
+	openGate()
 }
 
 // ---------------------------------------------------------------------------
@@ -556,6 +743,28 @@ func evTerm(s string) string {
 		return "ERemoveReturned true"
 	case "rmR-":
 		return "ERemoveReturned false"
+	case "gateC":
+		return "EGateClosed"
+	case "gateO":
+		return "EGateOpen"
+	case "xaddC":
+		return "XCalled KAdd"
+	case "xadd+":
+		return "XReturned KAdd true"
+	case "xadd-":
+		return "XReturned KAdd false"
+	case "xrmC":
+		return "XCalled KRemove"
+	case "xrmR+":
+		return "XReturned KRemove true"
+	case "xrmR-":
+		return "XReturned KRemove false"
+	case "xrcC":
+		return "XCalled KReconnect"
+	case "xrcR+":
+		return "XReturned KReconnect true"
+	case "xrcR-":
+		return "XReturned KReconnect false"
 	case "hang":
 		return "EHang"
 	case "stall":
@@ -684,6 +893,36 @@ func systematicScripts() []TargetSpec {
 	}
 }
 
+// overlapCases: a callback of the old session is held, Remove is issued, and
+// while it is in progress a second goroutine calls Add / Remove / Reconnect for
+// the same name.
+func overlapCases() []Case {
+	scripts := []TargetSpec{
+		{Hops: 1, Dial: []bool{false, true, true, true}, Streams: []Stream{{"usu", "eof"}, {"us", "hang"}, {"su", "err"}}},
+		{Hops: 1, TimeoutMs: longTimeoutMs, Streams: []Stream{{"su", "err"}, {"u", "hang"}, {"us", "eof"}}},
+	}
+	gates := [][]Gate{
+		{{"CE", 1}, {"ME", 1}, {"Connect", 1}, {"Update", 1}, {"Sync", 1}, {"Update", 2}, {"Reset", 1}, {"CE", 2}, {"ME", 2}, {"Connect", 2}},
+		{{"Connect", 1}, {"Update", 1}, {"Reset", 1}, {"ME", 1}, {"Update", 2}},
+	}
+	var out []Case
+	for i, sp := range scripts {
+		for _, g := range gates[i] {
+			for _, x := range []string{"add", "remove", "reconnect"} {
+				sp2 := sp
+				g2 := g
+				sp2.Gate = &g2
+				c := Case{Family: "overlap", Targets: []TargetSpec{sp2}, Ops: []Op{{T: 0, K: "overlap", X: x}}}
+				if len(out)%4 == 3 {
+					c.CbDelayUs = 200
+				}
+				out = append(out, c)
+			}
+		}
+	}
+	return out
+}
+
 func randSpec(r *vh.Rand) TargetSpec {
 	sp := TargetSpec{Hops: 1 + r.Pick(6, 3, 1), Creds: r.Chance(1, 4)}
 	if r.Chance(1, 4) {
@@ -731,6 +970,12 @@ func randCase(r *vh.Rand) Case {
 			at += r.Intn(14)
 			k := []string{"reconnect", "readd", "remove", "add"}[r.Pick(5, 3, 2, 2)]
 			c.Ops = append(c.Ops, Op{T: i, At: at, K: k})
+		}
+		if r.Chance(1, 5) {
+			cbk := []string{"Connect", "Update", "Sync", "Reset", "CE", "ME"}[r.Intn(6)]
+			c.Targets[i].Gate = &Gate{Cb: cbk, N: 1 + r.Intn(3)}
+			x := []string{"add", "remove", "reconnect"}[r.Intn(3)]
+			c.Ops = append(c.Ops, Op{T: i, K: "overlap", X: x})
 		}
 	}
 	return c
@@ -899,7 +1144,8 @@ func gorLen(tr []string) int {
 	n := 0
 	for _, e := range tr {
 		switch e {
-		case "addC", "add+", "add-", "rcC", "rcR+", "rcR-", "rmC", "rmR+", "rmR-", "hang", "stall":
+		case "addC", "add+", "add-", "rcC", "rcR+", "rcR-", "rmC", "rmR+", "rmR-", "hang", "stall",
+			"gateC", "gateO", "xaddC", "xadd+", "xadd-", "xrmC", "xrmR+", "xrmR-", "xrcC", "xrcR+", "xrcR-":
 		default:
 			n++
 		}
@@ -919,7 +1165,7 @@ func main() {
 	manager.RetryRandomization = 0.5
 	manager.VerifSetSubscribeClient(openStream)
 
-	meta := vh.NewMeta("corpus cases; systematic family: single-target fault scripts (dial refusal, credentials / open / send failure, multi-hop, data then error / EOF, hang with and without receive timeout, slow live stream; seven single-target fault scripts in all, the seventh with a receive timer that is armed but cannot expire), each alone and with one Reconnect, one Remove and one Remove+Add placed at every position (quick: every second position of long logs) of the script's baseline log, a third of them with slow callbacks (a callback is logged when it returns); random family: 1-3 targets per manager (shared addresses), 1-6 scripted attempts each, 0-4 control actions (Reconnect, Remove, Add, Remove+Add) at random log positions, receive timeout none / 12 ms / far away, callbacks instantaneous or 100-400 us. distinct = distinct (scripts, actions); non-trivial = some target's log has a Reset and a ConnectError")
+	meta := vh.NewMeta("corpus cases; systematic family: single-target fault scripts (dial refusal, credentials / open / send failure, multi-hop, data then error / EOF, hang with and without receive timeout, slow live stream; seven single-target fault scripts in all, the seventh with a receive timer that is armed but cannot expire), each alone and with one Reconnect, one Remove and one Remove+Add placed at every position (quick: every second position of long logs) of the script's baseline log, a third of them with slow callbacks (a callback is logged when it returns); overlap family: two scripts x a held callback (each kind, first or second occurrence) x {Add, Remove, Reconnect} of the same name issued by a second goroutine while the first one's Remove is in progress (observed waiting inside Manager.Remove), a fifth of the random cases get such an action too; random family: 1-3 targets per manager (shared addresses), 1-6 scripted attempts each, 0-4 control actions (Reconnect, Remove, Add, Remove+Add) at random log positions, receive timeout none / 12 ms / far away, callbacks instantaneous or 100-400 us. distinct = distinct (scripts, actions); non-trivial = some target's log has a Reset and a ConnectError")
 	meta.Samples = []interface{}{} // never null in meta.json
 	window := 30 * time.Millisecond
 	par := 8
@@ -999,6 +1245,14 @@ func main() {
 	}
 	e.runAll(sys, par)
 	meta.Extra["systematic_cases"] = len(sys)
+
+	// overlapping calls for one name
+	ov := overlapCases()
+	if o.Thorough() {
+		ov = append(ov, overlapCases()...)
+	}
+	e.runAll(ov, par)
+	meta.Extra["overlap_cases"] = len(ov)
 
 	// random
 	r := vh.NewRand(o.Seed)
